@@ -56,13 +56,14 @@ Definition as_float (f : fval) : option qn :=
   | FStr _ | FNone => None
   end.
 
-(* np.result_type on the dtypes that occur: bool < int < float; strings only with strings *)
+(* np.result_type on the dtypes that occur: bool < int < float < str (NumPy promotes a number with a string to a
+   string); object arrays are outside the model *)
 Definition rank (d : dtype) : option nat :=
-  match d with DBool => Some 0%nat | DInt => Some 1%nat | DFloat => Some 2%nat | _ => None end.
+  match d with DBool => Some 0%nat | DInt => Some 1%nat | DFloat => Some 2%nat | DStr => Some 3%nat | DObj => None end.
 Definition promote2 (a b : dtype) : option dtype :=
   match rank a, rank b with
   | Some x, Some y => Some (if Nat.leb x y then b else a)
-  | _, _ => match a, b with DStr, DStr => Some DStr | _, _ => None end
+  | _, _ => None
   end.
 Fixpoint promote_all (l : list dtype) : option dtype :=
   match l with
@@ -92,9 +93,9 @@ Definition part_get (n : nat) (s : pstate) (p : fprops) : pres :=
   | SMissing => PMissing
   | SArr dt vals => PArr dt vals
   | SGet dt v => if f_decide p dt then PCat dt None
-                 else match rank dt with
-                      | Some _ => PArr DFloat (repeat (Some v) n)
-                      | None => PErr
+                 else match dt with
+                      | DFloat | DInt | DBool => PArr DFloat (repeat (Some v) n)
+                      | _ => PErr                      (* np.interp of strings raises *)
                       end
   end.
 
@@ -122,7 +123,7 @@ Definition fill_one (dtype : dtype) (anycat : bool) (p : fprops) (n : nat) : pre
 Inductive cres :=
 | CKey                                        (* KeyError: absent from every part *)
 | CErr                                        (* a part raised *)
-| CArr (dt : option dtype) (vals : list qn)   (* np.concatenate; None = numbers and strings mixed *)
+| CArr (dt : option dtype) (vals : list qn)   (* np.concatenate; None = an object array is involved *)
 | CCat                                        (* concatenate_categorical of categorical parts (C10 / C11) *)
 | CMixed.                                     (* arrays and categorical data mixed: concatenate_categorical raises *)
 
